@@ -21,14 +21,18 @@
                 Inv_RoundTrip: the re-parsed request equals the parsed one (ReqEq).
 
    Dev: named deviations (defects of the code, past or plausible) - Dev = {} satisfies every property.
-     XffUntrimmed       address.rs did not trim X-Forwarded-For entries ("9.9.9.9, 8.8.8.8" -> origin 9.9.9.9)   [repaired]
-     UnstableHeaderSort headers.rs sorted with sort_unstable_by_key: same-named fields may swap           [repaired]
+     XffUntrimmed       address.rs did not trim X-Forwarded-For entries ("9.9.9.9, 8.8.8.8" -> origin 9.9.9.9)   [repaired, f9a3d33]
+     UnstableHeaderSort headers.rs sorted with sort_unstable_by_key: same-named fields may swap           [repaired, 27df1d6]
      UnicodeTrimStart   request.rs trim_start() also removes non-ASCII white space (U+00A0 ...) that
-                        belongs to the value                                                               [repaired]
+                        belongs to the value                                                               [repaired, f5c6e49]
      ZeroHdrExtraCrlf   the serialiser writes start line CRLF CRLF CRLF for a request without fields; only the
                         auxiliary Inv_SerialExact sees it (request equality, which is what C02 states, holds)
      BodySingleRead, SplitAllColons, ValueLowercased, XffFirstIsOrigin, LineNoAccumulate:
-                        plausible regressions (DESIGN 8a) used to show that the invariants are not vacuous *)
+                        plausible regressions (DESIGN 8a) used to show that the invariants are not vacuous
+
+   TLC note: `-coverage 1` does not terminate on this module (cost-model construction over the nested
+   recursive operators of HttpReqSyntax); checks/c02.py takes action coverage from the dumped state
+   graph (-dump dot,actionlabels) of MC_HttpReq_seg_cap3 / _seg_live instead. *)
 EXTENDS HttpReqSyntax
 
 CONSTANTS StartLines,   \* set of [method, path, hasq, query, version]
